@@ -1,0 +1,27 @@
+//go:build verif
+
+// Contracts for govc (see /verif/DESIGN.md). This file contains only
+// comments; it is compiled only under the `verif` build tag.
+
+package match
+
+//@ func (Bindings).Copy returns acc
+//@   safety C07, C03
+//@   modifies[C03,C06,C12] nothing
+//@   ensures[C03,C06] fresh: acc != nil && fresh(acc)
+//@   ensures[C01,C06,C18] same: forall k string :: ((k in acc) <==> (k in bs)) && ((k in bs) ==> acc[k] == bs[k])
+//@   loop 0 modifies acc
+//@   loop 0 invariant visited: forall k string :: seen(0)[k] ==> (k in bs)
+//@   loop 0 invariant dom: forall k string :: (k in acc) <==> seen(0)[k]
+//@   loop 0 invariant val: forall k string :: (k in acc) ==> acc[k] == bs[k]
+
+// Match: proved in this package (C01, C03); used by core.(*Branch).try.
+//@ func (*Matcher).Match returns bss, err
+//@   modifies[C03,C06,C12] nothing
+//@   ensures[C01,C03,C06,C18] results: err == nil ==> forall i int :: 0 <= i && i < len(bss) ==> bss[i] != nil && fresh(bss[i]) && ext(bindings, bss[i])
+
+//@ func (Bindings).Extendm returns r, err
+//@   safety C07
+//@   requires bs != nil
+//@   modifies bs
+//@   ensures err == nil ==> r == bs
